@@ -33,6 +33,9 @@ type Server struct {
 	Branch  *uni.Branch
 	Hashes  []tlog.Hash // tlog stored hashes of Branch
 	TreeID  string
+	// Prefix: the path component of the log's base URL ("" or "a/b/"): requests
+	// must stay below it.
+	Prefix string
 
 	mu   sync.Mutex
 	Size int    // current head size
@@ -176,6 +179,14 @@ var errReset = errors.New("verif: connection reset by peer")
 
 func (s *Server) valid(u *url.URL) (int, []byte) {
 	p := strings.TrimPrefix(u.EscapedPath(), "/") // as on the wire
+	if s.Prefix != "" {
+		rest, ok := strings.CutPrefix(p, s.Prefix)
+		if !ok {
+			s.note(p + ": not below the log's base URL path " + s.Prefix)
+			return 404, nil
+		}
+		p = rest
+	}
 	s.mu.Lock()
 	size, head := s.Size, s.Head
 	s.mu.Unlock()
